@@ -17,3 +17,8 @@ import (
 func NewReconcilerForVerif(topo topo.Store, conns gnmi.ConnManager, configurations configurationstore.Store) controller.Reconciler {
 	return &Reconciler{conns: conns, topo: topo, configurations: configurations}
 }
+
+// NewWatchersForVerif returns the v3 configuration controller's watchers, in the order NewController registers them
+func NewWatchersForVerif(topo topo.Store, configurations configurationstore.Store) []controller.Watcher {
+	return []controller.Watcher{&Watcher{configurations: configurations}, &TopoWatcher{topo: topo}}
+}
